@@ -391,7 +391,11 @@ func (g *gen) namedCall(name string, depth int) *node {
 	n := g.arity(spec)
 	args := make([]*node, n)
 	for i := range args {
-		args[i] = g.arg(spec.at(i), depth+1)
+		k := spec.at(i)
+		if name == "json" && n == 1 {
+			k = kJPath // {json path} reads the document from {0}
+		}
+		args[i] = g.arg(k, depth+1)
 	}
 	return call(name, args...)
 }
